@@ -68,9 +68,17 @@ def trigger : List Modifier → List AliasMapping → List Key
   | Modifier.alias _ :: ms, d :: ch => d.frm.keys ++ trigger ms ch
   | Modifier.alias _ :: ms, [] => trigger ms []
 
+/-- the definition chosen for the LAST slot named `n`, given the slot names and the choice -/
+def lastChosen : List (List Char) → List AliasMapping → List Char → Option AliasMapping
+  | n' :: names, d :: ch, n =>
+    match lastChosen names ch n with
+    | some d' => some d'
+    | none => if n' = n then some d else none
+  | _, _, _ => none
+
 /-- the definition chosen on the trigger side for alias `n`: that of the last slot named `n` -/
 def chosen (mods : List Modifier) (ch : List AliasMapping) (n : List Char) : Option AliasMapping :=
-  (((slots mods).zip ch).reverse.find? fun p => p.1 == n).map (·.2)
+  lastChosen (slots mods) ch n
 
 /-- output side: an alias stands for the keys chosen on the trigger side; it is an error to use an
 alias that is not on the trigger side -/
